@@ -43,12 +43,18 @@ SOURCES = ['src/transform/estimation/FindRigidTransformationByICP.cpp',
            'src/pointset/algorithms/PointSetPreconditioner.cpp', 'src/pointset/algorithms/PreconditionedPointSet.cpp']
 _REPO = os.environ.get('VERIF_REPO', '/repo')
 EXTRA_FLAGS = ['-DC06_SCAN_PATH="%s"' % os.path.join(_REPO, 'test/data/scan2d.txt')]
-PROOF_MODULES = ['RomeaProofs.Properties.C06', 'RomeaProofs.Bridge.C06', 'RomeaProofs.Bridge.C06Cor']
+PROOF_MODULES = ['RomeaProofs.Properties.C06', 'RomeaProofs.Bridge.C06', 'RomeaProofs.Bridge.C06Cor',
+                 'RomeaProofs.Bridge.C06Ransac', 'RomeaProofs.Bridge.C06RansacCor']
 HANG_SECS = 60
 TRUSTED = ['tools/cxx2lean.py translates the RansacIterations constructor / update / get (with EPSILON) from the working tree into '
            'RomeaModel/Generated/SrcC06.lean on every run; RomeaProofs/Bridge/C06*.lean prove them equal to the model\'s Iterations '
            '(under: integer -> scalar conversion agrees for naturals, truncated quotient non-negative) and restate the bound theorems; '
-           'Ransac::estimateModel is NOT translated',
+           'Ransac::estimateModel is translated too (spec key abstract_classes: the six virtual RansacModel calls are function parameters '
+           'threading an abstract model state, the while loop a recursive function on fuel, the size_t -> float -> size_t conversions '
+           'IntCast / Trunc at a second scalar type): Bridge/C06Ransac.lean proves it equal to the model\'s estimateModel (loop in lockstep; '
+           'hypotheses: the float type converts counts below a bound B like binary32, non-negative truncated quotient), '
+           'Bridge/C06RansacCor.lean discharges the hypotheses at the reals for counts below 2^24 and restates estimateModel_terminates / '
+           'estimateModel_ret_iff about the translated function; RansacRigidTransformationModel::countInliers is NOT translated',
            'harness/c06.cpp: scripted RansacModel subclass, subclasses exposing protected members of '
            'RansacRigidTransformationModel / FindRigidTransformationByICP, and access to the PRIVATE members of '
            'RansacRandomCorrespondences (weights_, cumSumWeights_, scale_, randomGenerator_, uniformDistribution_, resetWeights_) '
@@ -189,7 +195,7 @@ def regen(ctx):
     info = {'file': 'RomeaModel/Generated/ConstantsC06.lean', 'values': {k: (list(x) if isinstance(x, tuple) else x) for k, x in vals.items()},
             'fell_back': fell_back, 'rewritten': old != text}
     import bridge
-    info.update(bridge.regen_bridge(ctx, bridge.SPECS['C06']))      # RansacIterations translated (DESIGN.md 2.5b)
+    info.update(bridge.regen_bridge(ctx, bridge.SPECS['C06']))      # RansacIterations + Ransac::estimateModel translated (DESIGN.md 2.5b)
     return info
 
 
